@@ -240,8 +240,8 @@ def representable(s, fmt):
         hv = max(numpy.sqrt(numpy.dot(v, v)) for v in lat.base)
         if hv * A < 3.5:
             A = numpy.ceil(3.5 / hv)
-        if (hi / A).max() >= 1.0:
-            return "coordinate span needs re-centring"
+        if (hi / A).max() >= 1.0 or float("%.8g" % (hi / A).max()) >= 1.0:
+            return "coordinate span needs re-centring (a reduced coordinate is, or prints as, 1.0)"
         return None
     if fmt == "cif":
         if not std:
